@@ -80,6 +80,12 @@ def gen(rng, tier):
     ctx.dtypes = ["f8", "f8", "i8", "i4", "f4"]
     ctx.p_masked = 0.0
     ctx.allow_unknown = True
+    # Non-elementwise user block functions are kept out of C11 programs: fancy/boolean indexing is
+    # pushed through map_blocks/map_overlap(depth=0) user functions (map_blocks(f, x)[[0, 1, 3]] !=
+    # map_blocks(f, x).compute()[[0, 1, 3]]), a pure C01/C02 matter that would otherwise make the value
+    # of ``x[key] = g(x[key])`` ambiguous and be misreported here (recorded in DESIGN as unclaimed).
+    for bad in ("map_overlap", "map_blocks", "userfn"):
+        ctx.enabled.discard(bad)
     recipe = G.gen_program(ctx, rng.randint(3, 9), n_leaves=rng.randint(1, 2))
     steps = recipe["steps"]
     env = ctx.env
